@@ -145,3 +145,60 @@ def BytesIO.run (s : BytesIO) : List Call → List Out
   | c :: cs => let (s', o) := s.step c; o :: BytesIO.run s' cs
 
 end Ts.Storage
+
+/-! ## The write path down to write(2): short writes
+
+`FSStoragePlugin.write` opens the file with `aiofiles.open(path, "wb+")` — a *buffered* binary writer — and calls
+`write(buf)` once, then closes.  CPython's `BufferedWriter` hands the data to the raw file and **loops**
+(`_bufferedwriter_flush_unlocked` / the large-write path of `_io__Buffered_write_impl`): each raw `write(2)` may
+accept fewer bytes than offered (disk filling up, quota, `RLIMIT_FSIZE`, > 2 GiB buffers), the writer advances by
+the accepted count and tries again until everything is written or the OS reports an error, which is raised.
+An *unbuffered* file (`buffering=0`, a raw `FileIO`) performs one `write(2)` and returns its count. -/
+namespace Ts.Storage
+
+/-- what one `write(2)` call does when `offered` bytes are offered at file offset `off` -/
+inductive OsWrite where
+  | accepted (n : Nat)      -- wrote the first `n` of the offered bytes (1 ≤ n ≤ offered for a lawful OS)
+  | failed                  -- -1 with errno (EFBIG, ENOSPC, EDQUOT, EIO …)
+  deriving DecidableEq, Repr
+
+/-- the operating system as seen by one open file: any function of (file offset, bytes offered) -/
+abbrev Os := Nat → Nat → OsWrite
+
+/-- offered at least one byte, an OS never accepts nothing or more than it was offered -/
+def Os.Lawful (os : Os) : Prop := ∀ off k n, 1 ≤ k → os off k = .accepted n → 1 ≤ n ∧ n ≤ k
+
+inductive WErr where
+  | osError           -- the raw write failed: BufferedWriter / FileIO raise OSError
+  deriving DecidableEq, Repr
+
+/-- `BufferedWriter.write(data); close()` on a file just truncated: loop until all bytes are accepted or the OS fails.
+Returns the file's final content in both cases (`.error` carries what was written before the failure: the file
+stays on disk). `fuel` bounds the loop (each lawful step accepts ≥ 1 byte, so `data.length + 1` suffices). -/
+def bufferedWrite (os : Os) : Nat → Bytes → Bytes → Except (WErr × Bytes) Bytes
+  | _, file, [] => .ok file
+  | 0, file, _ :: _ => .error (.osError, file)
+  | fuel + 1, file, d :: ds =>
+    match os file.length (d :: ds).length with
+    | .failed => .error (.osError, file)
+    | .accepted n => bufferedWrite os fuel (file ++ (d :: ds).take n) ((d :: ds).drop n)
+
+/-- `FSStoragePlugin.write` down to the OS: buffered writer on an empty (truncated) file -/
+def pluginWrite (os : Os) (data : Bytes) : Except (WErr × Bytes) Bytes :=
+  bufferedWrite os (data.length + 1) [] data
+
+/-- one raw `FileIO.write` whose return value nobody looks at (what `buffering=0` would do) -/
+def rawWriteUnchecked (os : Os) (data : Bytes) : Except (WErr × Bytes) Bytes :=
+  match data with
+  | [] => .ok []
+  | _ =>
+    match os 0 data.length with
+    | .failed => .error (.osError, [])
+    | .accepted n => .ok (data.take n)
+
+/-- the OS of a process whose file-size limit is `limit` bytes (`RLIMIT_FSIZE`, SIGXFSZ ignored): writes are cut at the
+limit, and a write starting at or beyond it fails with EFBIG -/
+def osLimit (limit : Nat) : Os := fun off k =>
+  if off ≥ limit then .failed else .accepted (min k (limit - off))
+
+end Ts.Storage
